@@ -124,35 +124,24 @@ def compare(a, b):
 
 
 # ------------------------------------------------------------------------------ plans
-_PLANS = None
-
-
-def plans():
-    """{name: {"text":..., "run": bool}} for the example plans that build standalone."""
-    global _PLANS
-    if _PLANS is not None:
-        return _PLANS
-    out = {}
+def plan_names():
+    """Example plans that are candidates (cheap textual filter, nothing is built here)."""
+    out = []
     for path in sorted(glob.glob(os.path.join(env.REPO, "ioflo", "app", "plan", "*.flo"))):
-        name = os.path.basename(path)
-        if name in PLAN_EXCLUDE:
-            continue
-        text = open(path).read()
-        verbs = [ln.split()[0] for ln in text.split("\n") if ln.split()]
-        if "server" in verbs or "load" in verbs:
-            continue
-        first = evaluate(text, run=False)
-        if first["outcome"] != "ok":
-            continue
-        runnable = "logger" not in verbs
-        if runnable:
-            r1 = evaluate(text, run=True)
-            r2 = evaluate(text, run=True)
-            if r1["run"] != r2["run"] or r1["dump"] != r2["dump"]:
-                runnable = False
-        out[name] = {"text": text, "run": runnable}
-    _PLANS = out
+        if os.path.basename(path) not in PLAN_EXCLUDE:
+            out.append(path)
     return out
+
+
+def qualify(path):
+    """-> None (plan not usable standalone) or {"text":..., "run": bool}"""
+    text = open(path).read()
+    verbs = [ln.split()[0] for ln in text.split("\n") if ln.split()]
+    if "server" in verbs or "load" in verbs:
+        return None
+    if evaluate(text, run=False)["outcome"] != "ok":
+        return None
+    return {"text": text, "run": "logger" not in verbs}   # reproducibility of the run: canon_result()
 
 
 # ------------------------------------------------------------------------------ cases
@@ -161,13 +150,15 @@ def make_case(src, canon, gen_lines, seed, intensity, kinds, run):
             "kinds": list(kinds), "run": bool(run), "ticks": TICKS}
 
 
-def case_variant(case, kinds=None):
+def case_variant(case, kinds=None, reseed=0, intensity=None):
     items = case["gen_lines"] if case.get("gen_lines") else metagen.plan_logical_lines(case["canon"])
-    return metagen.layout(items, random.Random(case["seed"]), case["intensity"],
+    return metagen.layout(items, random.Random(case["seed"] + reseed),
+                          case["intensity"] if intensity is None else intensity,
                           kinds=case["kinds"] if kinds is None else kinds)
 
 
 _CANON_CACHE = {}
+_CULPRITS = []
 
 
 def canon_result(case):
@@ -195,26 +186,42 @@ def run_case(case):
     if diff is None:
         return [], info
     kind, what = diff
-    # root-cause signature: the smallest set of transformation kinds that still changes the result
+    # root-cause signature: the smallest set of transformation kinds (1, then 2) that changes the
+    # result of this program in one of a few fresh full-intensity layouts
     culprit = None
     ks = list(case["kinds"])
-    for k in ks:
-        t, _, _ = case_variant(case, [k])
-        if compare(ref, evaluate(t, ref["run"] is not None, case.get("ticks", TICKS))) is not None:
-            culprit = k
+    run = ref["run"] is not None
+    ticks = case.get("ticks", TICKS)
+
+    def breaks(subset):
+        for t in range(5):
+            txt, _, _ = case_variant(case, subset, reseed=t, intensity=1.0 if t else None)
+            if compare(ref, evaluate(txt, run, ticks)) is not None:
+                return True
+        return False
+
+    for known in list(_CULPRITS):   # root causes already seen in this process are tried first
+        if set(known) <= set(ks) and breaks(list(known)):
+            culprit = "+".join(known)
             break
+    if culprit is None:
+        for k in ks:
+            if breaks([k]):
+                culprit = k
+                break
     if culprit is None:
         for i in range(len(ks)):
             for j in range(i + 1, len(ks)):
-                t, _, _ = case_variant(case, [ks[i], ks[j]])
-                if compare(ref, evaluate(t, ref["run"] is not None, case.get("ticks", TICKS))) is not None:
+                if breaks([ks[i], ks[j]]):
                     culprit = "+".join(sorted((ks[i], ks[j])))
                     break
             if culprit:
                 break
-    sig = "layout:%s:%s" % (culprit or "combination", kind)
-    return [(sig, "%s [program %s, layout seed %d, kinds %s]" % (what, case["src"], case["seed"],
-                                                                 ",".join(case["kinds"])))], info
+    if culprit and tuple(culprit.split("+")) not in _CULPRITS:
+        _CULPRITS.append(tuple(culprit.split("+")))
+    sig = "layout:%s" % (culprit or "combination")
+    return [(sig, "%s (%s) [program %s, layout seed %d, kinds %s]" % (what, kind, case["src"], case["seed"],
+                                                                      ",".join(case["kinds"])))], info
 
 
 def execute(case):
@@ -249,7 +256,7 @@ def gen_case(draw):
 def plan(tier):
     if tier == "quick":
         return [{"part": "plans", "i": i, "n": 3, "layouts": 4} for i in range(3)] + \
-               [{"part": "gen", "i": i, "n": 5, "count": 120} for i in range(5)]
+               [{"part": "gen", "i": i, "n": 5, "count": 100} for i in range(5)]
     return [{"part": "plans", "i": i, "n": 8, "layouts": 50} for i in range(8)] + \
            [{"part": "gen", "i": i, "n": 24, "count": 1250} for i in range(24)]
 
@@ -257,9 +264,13 @@ def plan(tier):
 def work(shard, seed, tier):
     acc = Acc()
     if shard["part"] == "plans":
-        pl = plans()
-        names = sorted(pl)[shard["i"]::shard["n"]]
-        acc.note("example plans used: %d build standalone" % len(pl))
+        pl = {}
+        for path in plan_names()[shard["i"]::shard["n"]]:
+            q = qualify(path)
+            if q is not None:
+                pl[os.path.basename(path)] = q
+        names = sorted(pl)
+        acc.extra["example_plans_used"] = len(pl)
         allk = list(metagen.LAYOUT_KINDS)
         for pi, name in enumerate(names):
             for k in range(shard["layouts"]):
